@@ -88,7 +88,11 @@ func (r *Run) discharge(fr *FuncResult) []*OblResult {
 	// 1. batch all proof obligations
 	batchOK := false
 	if len(proofs) > 1 {
-		v := Decide(BatchQuery(proofs), r.Dir, fileTag(fr.Func)+"#batch", r.Timeout, r.Seed)
+		bt := 3 * time.Second
+		if r.Timeout < bt {
+			bt = r.Timeout
+		}
+		v := Decide(BatchQuery(proofs), r.Dir, fileTag(fr.Func)+"#batch", bt, r.Seed)
 		if v.Status == "unsat" {
 			batchOK = true
 			for _, o := range proofs {
